@@ -13,7 +13,7 @@ CHECKS = {
              text="Accept / reject of every program of the limit families is compared with the model (beyond a stated limit must be rejected). Every char-boundary prefix of every corpus script, hundreds of thousands of token/char mutants, random token strings and nesting bombs are compiled on the real compiler; each call is checked for panic, hang, Err without located message, Ok after a recorded error. Exploration over the generated inputs.",
              note="bounds: nesting <= 500, interpolation depth <= 9, inputs <= 64 KiB; hang = batch watchdog + isolated confirmation", ref="DESIGN.md §4 C03"),
  "C16": dict(technique="runtime monitoring: allocation/sweep event stream (hook) replayed against a shadow heap account at every allocation; iteration-doubling and drop-to-empty heap censuses",
-             text="Churn programs with bounded live sets over every allocation kind run under the stock threshold pacing on an optimised build; every allocation event is checked against the pacing rule as the property words it, every sweep against conservation and the 2x threshold rule; running 2n instead of n iterations must leave the same census; dropping the interpreter must empty the heap.",
+             text="Bodies whose fibers, once finished, are unreachable for the program also run with no iteration at all: kinds of object the program cannot reach after the loop must be as rare as after none (UnreachableRetained). Churn programs with bounded live sets over every allocation kind (incl. finished fibers that received their predecessor) run under the stock threshold pacing on an optimised build; every allocation event is checked against the pacing rule as the property words it, every sweep against conservation and the 2x threshold rule; running 2n instead of n iterations must leave the same census; dropping the interpreter must empty the heap.",
              note="byte sizes are yarel's own size_of accounting, as in the property; programs are generated loop programs, not arbitrary ones", ref="DESIGN.md §4 C16"),
 }
 PENDING = {}
@@ -32,6 +32,8 @@ def main():
     commits = subprocess.run("git -C /repo log --format=%h --grep='^verif_hooks' ", shell=True, stdout=subprocess.PIPE).stdout.decode().split()
     # fix 5b9e635 (per-fiber exception flag) also changes one line of guarded hook code: the state probe reads the flag where it now lives
     commits.append("5b9e635")
+    # fix 77a92fa (pending return per call frame) moves one edge of the guarded heap-audit list along with the field it describes
+    commits.append("77a92fa")
     m = {
         "version": 1,
         "setup_cmd": "./vf build --all",
